@@ -565,6 +565,12 @@ fn eval_cli(ctx: &Ctx, case: &CliCase) -> Verdict {
     Ok(Pass::new().nontrivial(true).label(format!("residue={residue:02}")))
 }
 
+pub fn npy_fuzz_seeds() -> Vec<Vec<u8>> {
+    let mut v: Vec<Vec<u8>> = matrix_cases().iter().step_by(3).map(|c| build_file(c, false, None)).collect();
+    v.extend(residue_cases().iter().step_by(17).filter_map(|c| lib_write_npy(&c.shape, &c.bits).ok()).filter(|b| b.len() <= 2048));
+    v
+}
+
 pub fn check(ctx: &Ctx) -> Check {
     let batches = ctx.tier.pick(8u64, 40);
     let parts: Vec<Box<dyn Part>> = vec![
@@ -629,6 +635,15 @@ pub fn check(ctx: &Ctx) -> Check {
             eval: Box::new(eval_cli),
         }),
     ];
+    let mut parts = parts;
+    parts.push(Box::new(crate::fuzzrun::FuzzPart {
+        name: "libfuzzer-fz_npy",
+        target: "fz_npy",
+        rule: "coverage-guided (libFuzzer + ASan): bytes -> Array::read_npy with the independent parser as in-target oracle: an accepted file must be self-consistent, agree with the independent parser on shape, dtype, payload length and every converted value, and a file spelled exactly as numpy writes it must be accepted; corpus seeded with the dtype x order x version matrix; non-trivial/distinct = corpus units that reached new coverage",
+        runs: ctx.tier.pick(0, 2_000_000),
+        max_len: 2048,
+        seeds: Box::new(|_| npy_fuzz_seeds()),
+    }));
     Check {
         parts,
         level: "exploration",
